@@ -57,17 +57,27 @@ def check_value(tag, got, expected_date, base, keep_time=False):
         req((got.hour, got.minute, got.second, got.microsecond) == want, f"{tag}: time of day is not {'kept' if keep_time else '00:00'}", got=str(got))
 
 
+def wd_arg(wd, salt):
+    """the weekday in one of the forms the API accepts: the WeekDay member, a plain int, the stdlib's calendar.Day member (equal, not identical)"""
+    k = salt % 3
+    if k == 1:
+        return int(wd)
+    if k == 2 and hasattr(calendar, "Day"):
+        return calendar.Day(wd)
+    return pendulum.WeekDay(wd)
+
+
 def nav_checks(o, d: D.date, wd, nths, tagp=""):
     """all navigation methods of o (on date d) for weekday wd; returns count"""
-    W = pendulum.WeekDay(wd)
+    W, Wn = wd_arg(wd, d.toordinal()), pendulum.WeekDay(wd).name
     n = 0
     nxt = d + D.timedelta(days=(wd - d.weekday() - 1) % 7 + 1)
     prv = d - D.timedelta(days=(d.weekday() - wd - 1) % 7 + 1)
-    check_value(f"{tagp}next({W.name})", o.next(W), nxt, o)
-    check_value(f"{tagp}previous({W.name})", o.previous(W), prv, o)
+    check_value(f"{tagp}next({Wn})", o.next(W), nxt, o)
+    check_value(f"{tagp}previous({Wn})", o.previous(W), prv, o)
     if isinstance(o, DateTime):
-        check_value(f"{tagp}next({W.name}, keep_time)", o.next(W, keep_time=True), nxt, o, keep_time=True)
-        check_value(f"{tagp}previous({W.name}, keep_time)", o.previous(W, keep_time=True), prv, o, keep_time=True)
+        check_value(f"{tagp}next({Wn}, keep_time)", o.next(W, keep_time=True), nxt, o, keep_time=True)
+        check_value(f"{tagp}previous({Wn}, keep_time)", o.previous(W, keep_time=True), prv, o, keep_time=True)
     if wd == d.weekday():
         check_value(f"{tagp}next()", o.next(), d + D.timedelta(days=7), o)
         check_value(f"{tagp}previous()", o.previous(), d - D.timedelta(days=7), o)
@@ -75,13 +85,13 @@ def nav_checks(o, d: D.date, wd, nths, tagp=""):
     for unit in ("month", "quarter", "year"):
         a, b = unit_range(d, unit)
         oc = occurrences(a, b, wd)
-        check_value(f"{tagp}first_of({unit}, {W.name})", o.first_of(unit, W), oc[0], o)
-        check_value(f"{tagp}last_of({unit}, {W.name})", o.last_of(unit, W), oc[-1], o)
+        check_value(f"{tagp}first_of({unit}, {Wn})", o.first_of(unit, W), oc[0], o)
+        check_value(f"{tagp}last_of({unit}, {Wn})", o.last_of(unit, W), oc[-1], o)
         check_value(f"{tagp}first_of({unit})", o.first_of(unit), a, o)
         check_value(f"{tagp}last_of({unit})", o.last_of(unit), b, o)
         n += 4
         for nth in sorted({x for x in nths(len(oc)) if x >= 1}):
-            tag = f"{tagp}nth_of({unit}, {nth}, {W.name})"
+            tag = f"{tagp}nth_of({unit}, {nth}, {Wn})"
             try:
                 r = o.nth_of(unit, nth, W)
             except PendulumException:
@@ -174,7 +184,7 @@ class Zones(Sub):
         x = pendulum.instance(r) if case["prov"] == "convert" else pendulum.datetime(*T.fields(r), tz=z, fold=r.fold)
         req(T.us(x) == u, "harness: value not built at the instant")
         d = D.date(r.year, r.month, r.day)
-        W = pendulum.WeekDay(wd)
+        W, Wn = wd_arg(wd, d.toordinal() + case["nth"]), pendulum.WeekDay(wd).name
         unit, nth = case["unit"], case["nth"]
         a, b = unit_range(d, unit)
         oc = occurrences(a, b, wd)
